@@ -62,6 +62,7 @@ class C07(runner.Check):
         'algorithm': algo, 'space': space, 'metrics': rng.choice([1, 2]),
         'recycle_s': rng.choice([0.1, 60.0, 60.0]), 'epoch': simclock.EPOCH + rng.randrange(10**6),
     }
+    cfg['id_rot'] = rng.randrange(len(O.STUDY_IDS))  # which adversarial id the main study carries
     n = rng.randrange(5, 31 if tier == 'quick' else 61)
     profile = {'n_studies': rng.choice([1, 2]), 'n_owners': rng.choice([1, 2]),
                'workers': rng.choice([1, 2, 3]), 'p_direct': rng.choice([0.1, 0.3])}
